@@ -1,6 +1,6 @@
 (* C02 - Stored bytes are always the canonical serialization, with exact length.  Statements only.
    FULL statement: in every reachable state of every history on every shape, firstn len mem = encode value and
-   len = byte_size value.  PROVED: for EVERY enum-free shape and every history of list operations at any nesting depth,
+   len = byte_size value.  PROVED: for EVERY shape (generated enums included since the enum extension of the theory; `plain t = true` holds of every shape, C01_every_shape) and every history of list operations at any nesting depth,
    failing operations included (C02_general_..., lists and maps of unsized elements with their offset tables,
    unsized_size and trailing length copy); for flat shapes (the earlier special case) as an invariant of all histories;
    for ALL shapes: canonical encodings are unique (any other reader sees the same value) and their size is
